@@ -1,6 +1,7 @@
 import ColaVerif.Lemmas.DiagTraceSound
 import ColaVerif.Lemmas.DiagTraceDtype
 import ColaVerif.Lemmas.DiagTraceSel
+import ColaVerif.Lemmas.DiagTraceRefuse
 import ColaVerif.Lemmas.Bridge
 import Mathlib.LinearAlgebra.Matrix.Trace
 
@@ -29,7 +30,15 @@ lattice).  One clause: `bdiag-zero-multiplicity` (`Op.ruleZeroMult`), see `C08_d
 
 Rule selection (round 2): `Op.diagRuleSig alg A`, `Op.traceRuleSig alg A`, `Op.diagRuleTable`,
 `Op.traceRuleTable` (Model/DiagTraceSel.lean) — compared with the live dispatch table of /repo on
-every run (harness/props/c08.py, stream D and every case of stream A).
+every run (harness/props/c08.py, stream D and every real call of streams A, B, E).
+
+Refusals (round 3): `.error "error:<Class>"` = the real call raises `<Class>`; the escape values
+`unmodelled:hutch` / `unmodelled:nonsquare-exact` = the model does not say what happens.
+`Op.hutchReach` (Model/DiagTraceReach.lean) is the decidable predicate on the input under which the
+first one can occur; `C08_refusals_are_exceptions` / `C08_trace_refusals_are_exceptions` show that
+outside it every refusal is `error:AssertionError` or `error:ValueError` (the harness compares the class
+with the exception the real call raises).  `C08_rules_witness`, `C08_trace_witness`,
+`C08_probing_witness` evaluate the rule theorems on concrete nested trees.
 -/
 
 namespace C08
@@ -270,6 +279,184 @@ theorem C08_rule_generic (bs0 : Nat) (alg : Alg) (A : Op R) (k : Int)
     (h : A.diagRuleClass = clsLinOp) : diagCode bs0 alg A k = genericDiag bs0 alg A.core k :=
   diagCode_generic_rule bs0 alg A k h
 
+/-! ## refusals are predicted exceptions (round 3) -/
+
+/-- **C08 (every refusal of `diag` is a predicted exception).**  `A.hutchReach` (Model/DiagTraceReach.lean)
+is the decidable predicate on the input "the rule recursion hands an operator with at least `10¹¹` entries
+to the generic rule" — the only way the model's `Auto()` leaves the exact algorithm.  On a well-formed
+square tree, with `alg = Exact()` or `A.hutchReach = false`, a refusal of the code model is
+`error:AssertionError` or `error:ValueError` (`Op.IsRaise`) — the class of the exception the real call
+raises, compared on every run — and never one of the escape values `unmodelled:hutch`,
+`unmodelled:nonsquare-exact` (nor `error:empty-sum` / `error:TypeError`, which need an empty member list). -/
+theorem C08_refusals_are_exceptions (bs0 : Nat) (alg : Alg) (A : Op R) (hwf : A.wf = true)
+    (hsq : A.rows = A.cols) (hr : alg = .exact ∨ A.hutchReach = false) (k : Int) (msg : String)
+    (h : diagCode bs0 alg A k = .error msg) :
+    msg = "error:AssertionError" ∨ msg = "error:ValueError" :=
+  diagCode_error_class bs0 alg A hwf hsq hr k msg h
+
+/-- the same for `trace` (a non-square operand is refused with `error:AssertionError`) -/
+theorem C08_trace_refusals_are_exceptions (bs0 : Nat) (alg : Alg) (A : Op R) (hwf : A.wf = true)
+    (hr : alg = .exact ∨ A.hutchReach = false) (msg : String)
+    (h : traceCode bs0 alg A = .error msg) :
+    msg = "error:AssertionError" ∨ msg = "error:ValueError" :=
+  traceCode_error_class bs0 alg A hwf hr msg h
+
+/-- **C08 (rule vs probing, without the escape values)**: `C08_rule_agrees_with_probing` with the
+refusal narrowed to the two predicted exception classes. -/
+theorem C08_rule_agrees_with_probing_strict (bs0 : Nat) (hbs : 0 < bs0) (alg : Alg) (A : Op R)
+    (hwf : A.wf = true) (hnd : A.dupSlice = false) (hh : A.HermOK) (hsq : A.rows = A.cols)
+    (hr : alg = .exact ∨ A.hutchReach = false) (k : Int) :
+    diagCode bs0 alg A k = .ok (exactDiag bs0 A k) ∨
+      diagCode bs0 alg A k = .error "error:AssertionError" ∨
+      diagCode bs0 alg A k = .error "error:ValueError" := by
+  rcases C08_rule_agrees_with_probing bs0 hbs alg A hwf hnd hh hsq k with h | ⟨msg, h⟩
+  · exact Or.inl h
+  · rcases C08_refusals_are_exceptions bs0 alg A hwf hsq hr k msg h with hm | hm
+    · exact Or.inr (Or.inl (by rw [h, hm]))
+    · exact Or.inr (Or.inr (by rw [h, hm]))
+
+/-- **C08 (the generic path never refuses a non-empty square operator).**  Where the selection names the
+`LinearOperator` methods (`C08_rule_generic`), a square operator with at least one row and — for `Auto()` —
+fewer than `10¹¹` entries gets `.ok`: the probing loop's result on the operator object. -/
+theorem C08_generic_total (bs0 : Nat) (alg : Alg) (A : Op R) (k : Int)
+    (h : A.diagRuleClass = clsLinOp) (hsq : A.rows = A.cols) (hpos : 0 < A.rows)
+    (hr : alg = .exact ∨ A.rows * A.cols < 100000000000) :
+    diagCode bs0 alg A k = .ok (exactDiag bs0 A.core k) :=
+  diagCode_generic_total bs0 alg A k h hsq hpos hr
+
+/-- the hypothesis `alg = Exact() ∨ hutchReach = false` cannot be dropped, and both exception classes
+occur: a 400000 × 400000 `no_dispatch` operator (1.6·10¹¹ entries) under `Auto()` gets the escape value
+(the real code returns a Hutchinson estimate there), under `Exact()` it does not; `diag(Identity(2), 3)`
+is `error:ValueError` (`zeros((-1,))`). -/
+theorem C08_escape_witness :
+    let H : Op Int := .generic (.eye .f64 400000)
+    H.wf = true ∧ H.rows = H.cols ∧ H.hutchReach = true ∧
+      diagCode 100 .auto H 0 = .error "unmodelled:hutch" ∧
+      (∃ d, diagCode 100 .exact H 0 = .ok d) ∧
+      diagCode 100 .auto (.eye .f64 2 : Op Int) 3 = .error "error:ValueError" := by
+  refine ⟨?_, ?_, ?_, ?_, ?_, ?_⟩
+  · simp [Op.wf]
+  · simp [Op.rows, Op.cols]
+  · simp [Op.hutchReach, Op.autoExact, Op.rows, Op.cols]
+  · simp [Op.diagCode, Op.genericDiag, Op.autoExact, Op.rows, Op.cols]
+  · exact ⟨_, C08_generic_total 100 .exact _ 0 (by simp [Op.diagRuleClass, clsLinOp])
+      (by simp [Op.rows, Op.cols]) (by simp [Op.rows]) (Or.inl rfl)⟩
+  · simp [Op.diagCode, Op.npZeros]
+
+/-! ## the rule theorems evaluated on concrete nested trees (round 3) -/
+
+/-- **`C08_rules` applied to concrete nested, non-diagonal trees.**
+`A` (6 × 6) = `BlockDiag([Kronecker([[1,2],[3,4]], Sum(Triangular [[1,0],[2,3]], 2·I)), PSD(KronSum([[5]]))],
+multiplicities = [1, 2])`, `k = 0`, `Auto()`: the code model returns `[3, 5, 12, 20, 5, 5]`.
+`B` (3 × 3) = `Sum(Dense [[0,1,2],[3,4,5],[6,7,8]], Sum(upper Triangular, 7·I), Diagonal [0,1,2])`,
+`k = 1` under `Exact()` and `k = -2` under `Auto()`: `[3, 7]` and `[6]`.
+All four hypotheses of `C08_rules` are shown for both trees, the values of `diagCode` are computed, and the
+statements about `diagK A.den.f …` are OBTAINED FROM `C08_rules` (not by evaluating `den`). -/
+theorem C08_rules_witness :
+    let A : Op Int := .bdiag [
+      .kron [.dense .f64 2 2 (fun i j => (i : Int) * 2 + j + 1), .sum [.tri .f32 2 2 true (fun i j => if j ≤ i then (i : Int) + j + 1 else 0), .scalar .f64 2 2]],
+      .annot .psd (.kronsum [.dense .f64 1 1 (fun _ _ => 5)])] [1, 2]
+    let B : Op Int := .sum [.dense .f64 3 3 (fun i j => (i : Int) * 3 + j), .sum [.tri .f64 3 3 false (fun i j => if i ≤ j then (j : Int) - i + 1 else 0), .scalar .f64 7 3], .diag .f32 3 (fun i => (i : Int))]
+    (A.wf = true ∧ A.dupSlice = false ∧ A.HermOK ∧ A.rows = A.cols ∧ A.rows = 6 ∧
+      diagCode 100 .auto A 0 = .ok [3, 5, 12, 20, 5, 5] ∧ diagK A.den.f A.rows 0 = [3, 5, 12, 20, 5, 5]) ∧
+    (B.wf = true ∧ B.dupSlice = false ∧ B.HermOK ∧ B.rows = B.cols ∧ B.rows = 3 ∧
+      diagCode 100 .exact B 1 = .ok [3, 7] ∧ diagK B.den.f B.rows 1 = [3, 7] ∧
+      diagCode 100 .auto B (-2) = .ok [6] ∧ diagK B.den.f B.rows (-2) = [6]) := by
+  intro A B
+  have hwfA : A.wf = true := by simp [A, Op.wf, Op.rows, Op.cols, Op.dotSum]
+  have hndA : A.dupSlice = false := by simp [A, Op.dupSlice]
+  have hhA : A.HermOK := by
+    simp [A, Op.HermOK, Op.HermNode, Op.isa, Op.anns, AnnSet.isa, AnnSet.interAll, AnnSet.inter, AnnSet.diff,
+      Op.rows, Op.cols, Op.dotSum, Op.isTA, Op.isT, Op.areTheSame, Op.isScalarMul, Op.dtype, DType.isComplex, Op.core]
+  have hsqA : A.rows = A.cols := by simp [A, Op.rows, Op.cols, Op.dotSum]
+  have hcA : diagCode 100 .auto A 0 = .ok [3, 5, 12, 20, 5, 5] := by
+    simp [A, Op.diagCode, Op.rows, Op.cols, Op.npDiag, Op.dtSeqE, Op.sumFold, Op.bcAdd, Op.outerProd, Op.outerSum,
+      bind, Except.bind, pure, Except.pure, List.range_succ]
+  have hwfB : B.wf = true := by simp [B, Op.wf, Op.rows, Op.cols]
+  have hndB : B.dupSlice = false := by simp [B, Op.dupSlice]
+  have hhB : B.HermOK := by
+    simp [B, Op.HermOK, Op.HermNode, Op.isa, Op.anns, AnnSet.isa, AnnSet.interAll, AnnSet.inter, AnnSet.diff,
+      Op.rows, Op.cols]
+  have hsqB : B.rows = B.cols := by simp [B, Op.rows, Op.cols]
+  have hcB1 : diagCode 100 .exact B 1 = .ok [3, 7] := by
+    simp [B, Op.diagCode, Op.npDiag, Op.npZeros, Op.sumFold, Op.bcAdd,
+      bind, Except.bind, pure, Except.pure, List.range_succ]
+  have hcB2 : diagCode 100 .auto B (-2) = .ok [6] := by
+    simp [B, Op.diagCode, Op.npDiag, Op.npZeros, Op.sumFold, Op.bcAdd,
+      bind, Except.bind, pure, Except.pure, List.range_succ]
+  refine ⟨⟨hwfA, hndA, hhA, hsqA, ?_, hcA, ?_⟩, ⟨hwfB, hndB, hhB, hsqB, ?_, hcB1, ?_, hcB2, ?_⟩⟩
+  · simp [A, Op.rows, Op.dotSum]
+  · exact (C08_rules 100 (by decide) .auto A hwfA hndA hhA hsqA 0 _ hcA).symm
+  · simp [B, Op.rows]
+  · exact (C08_rules 100 (by decide) .exact B hwfB hndB hhB hsqB 1 _ hcB1).symm
+  · exact (C08_rules 100 (by decide) .auto B hwfB hndB hhB hsqB (-2) _ hcB2).symm
+
+/-- **`C08_trace` applied to concrete nested trees**: the 6 × 6 `BlockDiag` tree of `C08_rules_witness`
+(generic rule `diag(A, 0).sum()`: 50) and the 6 × 6 `Kronecker([[1,2],[3,4]], BlockDiag([[0,1],[1,1]], I₁))`
+(rule `prod(trace(M))`: 5 · 2 = 10); squareness and the value of `traceSpec A.den.f …` are obtained from
+`C08_trace`. -/
+theorem C08_trace_witness :
+    let A : Op Int := .bdiag [
+      .kron [.dense .f64 2 2 (fun i j => (i : Int) * 2 + j + 1), .sum [.tri .f32 2 2 true (fun i j => if j ≤ i then (i : Int) + j + 1 else 0), .scalar .f64 2 2]],
+      .annot .psd (.kronsum [.dense .f64 1 1 (fun _ _ => 5)])] [1, 2]
+    let K : Op Int := .kron [.dense .f64 2 2 (fun i j => (i : Int) * 2 + j + 1),
+      .bdiag [.dense .f32 2 2 (fun i j => if i = 0 ∧ j = 0 then 0 else 1), .eye .f64 1] [1, 1]]
+    (A.wf = true ∧ A.dupSlice = false ∧ A.HermOK ∧ A.rows = 6 ∧
+      traceCode 100 .auto A = .ok 50 ∧ A.rows = A.cols ∧ traceSpec A.den.f A.rows = 50) ∧
+    (K.wf = true ∧ K.dupSlice = false ∧ K.HermOK ∧ K.rows = 6 ∧
+      traceCode 100 .exact K = .ok 10 ∧ K.rows = K.cols ∧ traceSpec K.den.f K.rows = 10) := by
+  intro A K
+  have hwfA : A.wf = true := by simp [A, Op.wf, Op.rows, Op.cols]
+  have hndA : A.dupSlice = false := by simp [A, Op.dupSlice]
+  have hhA : A.HermOK := by
+    simp [A, Op.HermOK, Op.HermNode, Op.isa, Op.anns, AnnSet.isa, AnnSet.interAll, AnnSet.inter, AnnSet.diff,
+      Op.rows, Op.cols, Op.dotSum]
+  have htA : traceCode 100 .auto A = .ok 50 := by
+    simp [A, Op.traceCode, Op.diagCode, Op.rows, Op.cols, Op.dotSum, Op.npDiag, Op.dtSeqE, Op.sumFold, Op.bcAdd, Op.outerProd, Op.outerSum,
+      bind, Except.bind, pure, Except.pure, List.range_succ]
+  have hwfK : K.wf = true := by simp [K, Op.wf, Op.rows, Op.cols]
+  have hndK : K.dupSlice = false := by simp [K, Op.dupSlice]
+  have hhK : K.HermOK := by
+    simp [K, Op.HermOK, Op.HermNode, Op.isa, Op.anns, AnnSet.isa, AnnSet.interAll, AnnSet.inter, AnnSet.diff,
+      Op.rows, Op.cols, Op.dotSum]
+  have htK : traceCode 100 .exact K = .ok 10 := by
+    simp [K, Op.traceCode, Op.diagCode, Op.rows, Op.cols, Op.dotSum, Op.npDiag, Op.dtSeqE,
+      bind, Except.bind, pure, Except.pure, List.range_succ]
+  have sA := C08_trace 100 (by decide) .auto A hwfA hndA hhA 50 htA
+  have sK := C08_trace 100 (by decide) .exact K hwfK hndK hhK 10 htK
+  refine ⟨⟨hwfA, hndA, hhA, ?_, htA, sA.1, sA.2.symm⟩, ⟨hwfK, hndK, hhK, ?_, htK, sK.1, sK.2.symm⟩⟩
+  · simp [A, Op.rows, Op.dotSum]
+  · simp [K, Op.rows, Op.dotSum]
+
+/-- **the probing path on a concrete operator**: `no_dispatch(Product(Dense 3×3, upper Triangular 3×3))`,
+`k = -1`, `Auto()`: the selection names the `LinearOperator` rule, `C08_generic_total` gives
+`.ok (exactDiag 100 G (-1))`, `C08_exact` identifies it with the sub-diagonal of the represented matrix
+`[[0,1,4],[3,10,22],[6,19,40]]`, which is `[3, 19]`. -/
+theorem C08_probing_witness :
+    let G : Op Int := .generic (.prod [.dense .f64 3 3 (fun i j => (i : Int) * 3 + j),
+      .tri .f64 3 3 false (fun i j => if i ≤ j then (j : Int) - i + 1 else 0)])
+    G.wf = true ∧ G.dupSlice = false ∧ G.HermOK ∧ G.rows = G.cols ∧ G.rows = 3 ∧ G.diagRuleClass = clsLinOp ∧
+      G.hutchReach = false ∧
+      diagCode 100 .auto G (-1) = .ok (exactDiag 100 G (-1)) ∧ exactDiag 100 G (-1) = [3, 19] ∧
+      diagK G.den.f G.rows (-1) = [3, 19] := by
+  intro G
+  have hwf : G.wf = true := by simp [G, Op.wf, Op.rows, Op.cols, Op.chainOk]
+  have hnd : G.dupSlice = false := by simp [G, Op.dupSlice]
+  have hh : G.HermOK := by
+    simp [G, Op.HermOK, Op.HermNode, Op.isa, Op.anns, AnnSet.isa, AnnSet.interAll, AnnSet.inter, AnnSet.diff,
+      Op.rows, Op.cols, Op.isTA, Op.isT, Op.areTheSame, Op.isScalarMul, Op.dtype, DType.isComplex, Op.core]
+  have hsq : G.rows = G.cols := by simp [G, Op.rows, Op.cols]
+  have hr : G.rows = 3 := by simp [G, Op.rows]
+  have hcls : G.diagRuleClass = clsLinOp := by simp [G, Op.diagRuleClass, clsLinOp]
+  have hden : diagK G.den.f G.rows (-1) = [3, 19] := by
+    simp [G, Op.diagK, Op.den, Op.rows, Op.cols, mmul, sumTo, eyeM, List.range_succ]
+  have hcore : G.core = G := by simp [G, Op.core]
+  have hcode := diagCode_generic_total 100 .auto G (-1) hcls hsq (by omega) (Or.inr (by rw [← hsq, hr]; decide))
+  rw [hcore] at hcode
+  refine ⟨hwf, hnd, hh, hsq, hr, hcls, ?_, hcode, ?_, hden⟩
+  · simp [G, Op.hutchReach, Op.autoExact, Op.rows, Op.cols]
+  · rw [C08_exact 100 (by decide) G hwf hnd hh hsq (-1), hden]
+
 end C08
 
 #print axioms C08.C08_exact
@@ -294,6 +481,14 @@ end C08
 #print axioms C08.C08_rule_table
 #print axioms C08.C08_rule_superclass
 #print axioms C08.C08_rule_generic
+#print axioms C08.C08_refusals_are_exceptions
+#print axioms C08.C08_trace_refusals_are_exceptions
+#print axioms C08.C08_rule_agrees_with_probing_strict
+#print axioms C08.C08_generic_total
+#print axioms C08.C08_escape_witness
+#print axioms C08.C08_rules_witness
+#print axioms C08.C08_trace_witness
+#print axioms C08.C08_probing_witness
 #print axioms Op.idCols_eq
 #print axioms Op.chunk_partition
 #print axioms Op.kron_trace_list
